@@ -334,7 +334,7 @@ def range_next(I, args, callee):
             return none()
         if not I.decide(sym_le(I, a, b)):
             return none()
-        if I.decide(sym_eq(I, a, b, 64)):
+        if I.decide(sym_eq(I, a, b)):
             if len(r.fields) > 2:
                 r.fields[2] = True
             else:
